@@ -158,7 +158,11 @@ class KindInfer:
                 # DisjointShape.__new__ may collapse to E / S / C; called with the complements of >= 2 subshapes
                 # (R06.4) of a ConnectedShape it is a genuine DisjointShape
                 a = e.args[0] if e.args else None
-                if selfkind == "C" and isinstance(a, ast.Name) and env.get(a.id) == frozenset("?sub"):
+                try:
+                    av = self.ev(fn, a, env, selfkind) if a is not None else None
+                except Undecided:
+                    av = None
+                if selfkind == "C" and av == frozenset("?sub"):
                     return frozenset("D")
                 return frozenset("ESCD")
             if t == "ConnectedShape":
@@ -178,6 +182,8 @@ class KindInfer:
             if isinstance(g.iter, ast.Attribute) and g.iter.attr == "subshapes":
                 return frozenset("?sub")
             return frozenset("?")
+        if isinstance(e, (ast.Subscript, ast.Attribute)):
+            return frozenset("?")           # a curve / collection taken out of a shape: not a shape value
         if isinstance(e, ast.IfExp):
             t = self.truth(e.test, env)
             r = frozenset()
@@ -188,7 +194,10 @@ class KindInfer:
             return r
         if isinstance(e, ast.UnaryOp) and isinstance(e.op, (ast.Invert, ast.USub)):
             r = frozenset()
-            for k in self.ev(fn, e.operand, env, selfkind):
+            ks = self.ev(fn, e.operand, env, selfkind)
+            if not ks <= frozenset(KINDS):
+                return frozenset("?")       # operator applied to a curve, not to a shape
+            for k in ks:
                 r |= self.op("__invert__" if isinstance(e.op, ast.Invert) else "__neg__", k)
             return r
         if isinstance(e, ast.BinOp) and type(e.op) in OPS:
@@ -466,6 +475,9 @@ class Simple(StandIn):
     def area(self):
         return self.sign * self.radius ** 2
 
+    def __float__(self):
+        return float(self.area())
+
     def __repr__(self):
         return self.name
 
@@ -474,14 +486,8 @@ def grouping_hook(made):
     def hook(rn, ev, call, name, recv, args, kwargs):
         if name == "float" and args and isinstance(args[0], Simple):
             return float(args[0].area())
-        if name == "map" and len(args) == 2:
-            f = call.args[0]
-            if isinstance(f, ast.Name) and f.id == "float":
-                return [float(s.area()) for s in args[1]]
-            if isinstance(f, ast.Name) and f.id == "abs":
-                return [abs(x) for x in args[1]]
-            if isinstance(f, ast.Name) and f.id == "SimpleShape":
-                return list(args[1])        # the stand-in curves already are stand-in simple shapes
+        if name == "SimpleShape" and len(args) == 1 and isinstance(args[0], Simple):
+            return args[0]                  # the stand-in curves already are stand-in simple shapes
         if name == "ConnectedShape" and len(args) == 1:
             made.append(("C", tuple(args[0])))
             return ("C", tuple(sorted(a.name for a in args[0])))
